@@ -33,6 +33,7 @@ type Unit struct {
 
 type Config struct {
 	Property    string            `json:"property"`
+	PreCmd      string            `json:"pre_cmd"`
 	Units       []Unit            `json:"units"`
 	Unwind      map[string]int    `json:"unwind"`
 	TimeoutMs   map[string]int    `json:"timeout_ms"`
@@ -178,6 +179,12 @@ func cmdCheck(args []string) int {
 		}
 	}
 
+	if cfg.PreCmd != "" {
+		out, err := exec.Command("bash", "-c", cfg.PreCmd).CombinedOutput()
+		if err != nil {
+			fatal("ENGINE-CONFIG: pre_cmd failed: %v\n%s", err, out)
+		}
+	}
 	overlay := map[string][]byte{}
 	var patterns []string
 	for _, u := range cfg.Units {
